@@ -929,3 +929,93 @@ async fn run_uinner(sc: &UTimeScenario) -> Outcome {
     };
     Outcome { obs, violations: viol }
 }
+
+// ---------------------------------------------------------------------
+// C10: a zero wait timeout "never waits for a slot" - and never fails while
+// one is free, however long the calling task has been running
+
+/// Several hundred zero-wait gets in a row inside ONE poll of a tokio task
+/// (tokio's cooperative budget of 128 operations per poll runs out on the
+/// way): each must succeed on the idle pool; then the same with the only
+/// object checked out: each must fail at once with Timeout(Wait).
+pub fn run_zero_wait_burst() -> Outcome {
+    sched::begin();
+    let rt = tokio::runtime::Builder::new_current_thread().enable_time().start_paused(true).build().expect("tokio runtime");
+    let variant = choose_free(4);
+    let out = rt.block_on(async move {
+        let mut cfg = PoolCfg::simple(1);
+        cfg.auto_gates = false;
+        init_world(cfg, &["C10"]);
+        w(|w| {
+            w.allow_timeouts = true;
+            w.forced_ok = true;
+            w.seq_actor = Some(PROBE);
+        });
+        let zero = Some(Duration::ZERO);
+        // zero wait per call / at pool level, with or without the other timeouts
+        let (pool_level, per_call) = match variant {
+            0 => (Timeouts::new(), Some(Timeouts { wait: zero, create: None, recycle: None })),
+            1 => (Timeouts { wait: zero, create: None, recycle: None }, None),
+            2 => (Timeouts { wait: zero, create: Some(Duration::from_secs(5)), recycle: Some(Duration::from_secs(5)) }, None),
+            _ => (Timeouts { wait: Some(Duration::from_secs(5)), create: None, recycle: None }, Some(Timeouts { wait: zero, create: Some(Duration::from_secs(5)), recycle: None })),
+        };
+        let pool = build_pool_with(pool_level, Some(Runtime::Tokio1)).expect("build with runtime");
+        w(|w| w.handles = 1);
+        let mut held = None;
+        for round in 0..300usize {
+            let gi = w(|w| w.begin_get(PROBE, true));
+            let r = match &per_call {
+                Some(t) => pool.timeout_get(t).await,
+                None => pool.get().await,
+            };
+            let ok = r.is_ok();
+            let desc = format!("{:?}", r.as_ref().map(|o| o.id).map_err(|e| format!("{:?}", e)));
+            finish_get(PROBE, gi, r);
+            if !ok {
+                w(|w| c10(w, "zero-wait-refused-on-idle-pool", format!("zero-wait get() number {} in a row on an idle pool (variant {}) returned {}", round + 1, variant, desc)));
+                break;
+            }
+            if round == 299 {
+                held = w(|w| w.hands.get_mut(&PROBE).and_then(|v| v.pop()));
+            } else {
+                while op_release(PROBE) {}
+            }
+        }
+        if held.is_some() {
+            for round in 0..300usize {
+                let gi = w(|w| w.begin_get(PROBE, true));
+                let r = match &per_call {
+                    Some(t) => pool.timeout_get(t).await,
+                    None => pool.get().await,
+                };
+                let good = matches!(r, Err(PoolError::Timeout(deadpool::managed::TimeoutType::Wait)));
+                let desc = format!("{:?}", r.as_ref().map(|o| o.id).map_err(|e| format!("{:?}", e)));
+                finish_get(PROBE, gi, r);
+                if !good {
+                    w(|w| c10(w, "zero-wait-on-exhausted-pool", format!("zero-wait get() number {} in a row on an exhausted pool (variant {}) returned {}", round + 1, variant, desc)));
+                    break;
+                }
+            }
+        }
+        if let Some(o) = held {
+            w(|w| w.hands.entry(PROBE).or_default().push(o));
+        }
+        while op_release(PROBE) {}
+        w(|w| {
+            w.forced_ok = false;
+            w.seq_actor = None;
+        });
+        crate::conc::drop_handle(0, pool);
+        let mut world = drop_world().unwrap();
+        let keep = std::mem::take(&mut world.keep);
+        let hands = std::mem::take(&mut world.hands);
+        let violations: Vec<Violation> = std::mem::take(&mut world.viol);
+        drop(world);
+        drop(hands);
+        drop(keep);
+        Outcome { obs: variant as u64, violations }
+    });
+    drop(rt);
+    sched::end();
+    out
+}
